@@ -206,6 +206,10 @@ def schedules(fam):
         steps4 += [Q, {"op": "reset", "res": [], "acc": ["e"], "settle": True}, {"op": "close", "c": "@req", "settle": True}]
         steps4 += [{"op": "reply", "t": "access", "pick": 0, "settle": True}] * 5 + [Q, ev("e", "custom"), Q]
         out.append(S(fam, "closeholder", steps4))
+        # the same with a connection that is still waiting for its turn in the throttle
+        steps5 = [x for x in steps4]
+        steps5[steps5.index({"op": "close", "c": "@req", "settle": True})] = {"op": "close", "c": "@other", "settle": True}
+        out.append(S(fam, "closewaiting", steps5))
     if fam.startswith("thr-reset"):
         # a query resource loses its last subscriber while its re-fetch waits in the reset throttle: whatever the
         # gateway does with that re-fetch, the requests queued behind it must still be sent
